@@ -338,6 +338,25 @@ func runC15(c *fw.Ctx) {
 					}
 				}
 			}
+			// the same directory through an import-resolving decorator
+			var ipkgs map[string]*dst.Package
+			if sig, detail := fw.Try(func() {
+				ipkgs, err = decorator.NewDecoratorWithImports(token.NewFileSet(), "example.com/self", goast.New()).ParseDir(dir, nil, 0)
+			}); sig != "" {
+				c.Violate("panic/Decorator(goast).ParseDir", sig, detail, dir)
+				return
+			}
+			c.Count("inputs:parsedir-with-imports", 1)
+			for _, pk := range ipkgs {
+				for _, f := range pk.Files {
+					var buf bytes.Buffer
+					if sig, detail := fw.Try(func() {
+						_ = decorator.NewRestorerWithImports("example.com/self", guess.New()).Fprint(&buf, f)
+					}); sig != "" {
+						c.Violate("panic/Fprint-with-imports-after-ParseDir", sig, detail, "")
+					}
+				}
+			}
 		})
 	}
 }
